@@ -29,7 +29,7 @@ func childEnv(extra ...string) []string {
 		}
 		env = append(env, e)
 	}
-	env = append(env, "GOFLAGS=-mod=mod", "GOPROXY=off", "GOSUMDB=off", "GOTOOLCHAIN=local")
+	env = append(env, "GOFLAGS=-mod=mod -trimpath", "GOPROXY=off", "GOSUMDB=off", "GOTOOLCHAIN=local")
 	return append(env, extra...)
 }
 
@@ -86,6 +86,10 @@ func buildGombok(dir string) (string, error) {
 	}
 	bin := filepath.Join(dir, "gombok")
 	r := runProc(mdir, 20*time.Minute, childEnv(), "go", "build", "-o", bin, "github.com/csgura/fp/cmd/gombok")
+	if r.err != nil && strings.Contains(r.out, "go-build") {
+		// a concurrently trimmed build cache makes the first attempt fail now and then
+		r = runProc(mdir, 20*time.Minute, childEnv(), "go", "build", "-o", bin, "github.com/csgura/fp/cmd/gombok")
+	}
 	if r.err != nil {
 		return "", fmt.Errorf("building gombok from %s failed: %v\n%s", repoDir(), r.err, r.out)
 	}
@@ -123,7 +127,7 @@ func parseCompileErrors(out string) []compileErr {
 func errClass(msg string) string {
 	for _, c := range []struct{ sub, class string }{
 		{"undefined:", "undefined"}, {"not enough arguments", "arity"}, {"too many arguments", "arity"},
-		{"cannot use", "type-mismatch"}, {"does not satisfy", "constraint"}, {"cannot infer", "inference"},
+		{"cannot use", "type-mismatch"}, {"cannot convert", "type-mismatch"}, {"does not satisfy", "constraint"}, {"cannot infer", "inference"},
 		{"declared and not used", "unused"}, {"imported and not used", "unused-import"}, {"redeclared", "redeclared"},
 		{"missing return", "syntax"}, {"syntax error", "syntax"}, {"unexported", "unexported-field"}, {"cannot refer to unexported", "unexported-field"},
 		{"has no field or method", "no-member"}, {"mismatched types", "type-mismatch"}, {"got", "arity"},
@@ -162,14 +166,16 @@ type lawFail struct{ tc, law, typ, detail string }
 type lawOutput struct {
 	fails   []lawFail
 	stats   map[string]int64 // "<tc>.<name>"
+	maxes   map[string]int64
 	ended   map[string]bool  // "<tc>|<typ>"
 	open    [2]string        // last BEGIN without END
 	hasOpen bool
 	done    bool
+	aborted bool
 }
 
 func parseLawOutput(s string) lawOutput {
-	o := lawOutput{stats: map[string]int64{}, ended: map[string]bool{}}
+	o := lawOutput{stats: map[string]int64{}, maxes: map[string]int64{}, ended: map[string]bool{}}
 	for _, l := range strings.Split(s, "\n") {
 		f := strings.Split(l, "|")
 		switch f[0] {
@@ -191,6 +197,15 @@ func parseLawOutput(s string) lawOutput {
 				n, _ := strconv.ParseInt(f[3], 10, 64)
 				o.stats[f[1]+"."+f[2]] += n
 			}
+		case "MAX":
+			if len(f) >= 4 {
+				n, _ := strconv.ParseInt(f[3], 10, 64)
+				if n > o.maxes[f[1]+"."+f[2]] {
+					o.maxes[f[1]+"."+f[2]] = n
+				}
+			}
+		case "ABORT":
+			o.aborted = true
 		case "DONE":
 			o.done = true
 		}
